@@ -604,6 +604,41 @@ func c11generate(c *core.Check) {
 		return true
 	})
 	c.Min("response-error-checked", 3)
+	// "its warnings are shown": every response whose contents are fed has its Warnings handed to the logger on every path
+	// to that Feed
+	nWarn := 0
+	ast.Inspect(fd.Body, func(n ast.Node) bool {
+		call, ok := n.(*ast.CallExpr)
+		if !ok {
+			return true
+		}
+		fn := rules.Callee(info, call)
+		if fn == nil || fn.Name() != "Feed" || len(call.Args) != 2 {
+			return true
+		}
+		sel, ok := call.Args[1].(*ast.SelectorExpr)
+		if !ok {
+			return true
+		}
+		resp := rules.ExprString(sel.X)
+		nWarn++
+		missed, targets := rules.MustPass(g, func(x ast.Node) bool {
+			c2, ok := x.(*ast.CallExpr)
+			if !ok {
+				return false
+			}
+			for _, a := range c2.Args {
+				if s2, ok := ast.Unparen(a).(*ast.SelectorExpr); ok && s2.Sel.Name == "Warnings" && rules.ExprString(s2.X) == resp {
+					return true
+				}
+			}
+			return false
+		}, func(x ast.Node) bool { return x == ast.Node(call) })
+		c.Decide(targets > 0 && len(missed) == 0, "response-warnings-shown", fmt.Sprintf("%s/Feed(%s)#%d", key, resp, nWarn), c.Prog.Rel(call.Pos()), resp+".Warnings are passed to the logger on every path to the Feed",
+			"the contents of "+resp+" are taken over but its Warnings are never passed to the logger: what this plugin/backend warns about is not shown")
+		return true
+	})
+	c.Min("response-warnings-shown", 3)
 	// lockstep
 	var loop *ast.RangeStmt
 	ast.Inspect(fd.Body, func(n ast.Node) bool {
